@@ -18,6 +18,7 @@ require (
 	github.com/ethereum/go-ethereum v1.14.11
 	github.com/goatnetwork/goat v0.0.0
 	github.com/supranational/blst v0.3.13
+	golang.org/x/sync v0.9.0
 	google.golang.org/protobuf v1.35.1
 )
 
@@ -145,7 +146,6 @@ require (
 	golang.org/x/crypto v0.29.0 // indirect
 	golang.org/x/exp v0.0.0-20240506185415-9bf2ced13842 // indirect
 	golang.org/x/net v0.30.0 // indirect
-	golang.org/x/sync v0.9.0 // indirect
 	golang.org/x/sys v0.27.0 // indirect
 	golang.org/x/term v0.26.0 // indirect
 	golang.org/x/text v0.20.0 // indirect
